@@ -272,7 +272,22 @@ pub fn near_misses(reg: &PortableRegistry, rng: &mut Rng) -> Vec<String> {
         }
         let p = rng.pick(&named).clone();
         let n = p.len();
-        match rng.below(6) {
+        match rng.below(8) {
+            6 | 7 => {
+                // same characters, same number of segments, one boundary moved by a character
+                // (`x::ab::c::T` vs `x::a::bc::T`): collides under any key that concatenates
+                let i = rng.usize_below(n - 1);
+                let mut q = p.clone();
+                if rng.below(2) == 0 {
+                    if let Some(c) = q[i].pop() {
+                        q[i + 1].insert(0, c);
+                    }
+                } else if !q[i + 1].is_empty() {
+                    let c = q[i + 1].remove(0);
+                    q[i].push(c);
+                }
+                out.push(q)
+            }
             0 => out.push(p[1 + rng.usize_below(n - 1)..].to_vec()), // proper suffix
             1 => {
                 let mut q = vec!["outer".to_string()];
@@ -443,6 +458,17 @@ pub fn gen_universe(w: &World, rng: &mut Rng, prop: Prop) -> Universe {
     let mut unknown_pool: Vec<String> = UNKNOWN.iter().map(|s| s.to_string()).collect();
     unknown_pool.extend(near_misses(&e.reg, rng));
     paths.extend(rng.subset(&unknown_pool, n_unknown));
+    if rng.chance(1, 12) {
+        // a wide universe: dozens of paths (most of them unknown to the registry), so that the
+        // builders and the validation meet more entries than any small-size fast path covers
+        let n_wide = 20 + rng.usize_below(24);
+        for i in 0..n_wide {
+            let p = format!("wide::m{}::T{i}", i % 5);
+            if !by_path.contains_key(&p) {
+                paths.push(p);
+            }
+        }
+    }
     rng.shuffle(&mut paths);
     let nd = 3 + rng.usize_below(6);
     let na = 2 + rng.usize_below(4);
@@ -617,6 +643,17 @@ pub fn gen_history(u: &Universe, seed: u64) -> Vec<HOp> {
         let b = if rng.chance(1, 2) { rng.usize_below(10) } else { 0 };
         let c = if rng.chance(1, 8) { rng.usize_below(23) } else { 0 };
         (a + b + c).min(40)
+    };
+    // wide universes get long histories that mostly register per path
+    let wide = u.paths.len() > 20;
+    let len = if wide { 50 + rng.usize_below(70) } else { len };
+    let sw = if wide {
+        Swarm {
+            w_perpath: 8 + sw.w_perpath,
+            ..sw
+        }
+    } else {
+        sw
     };
     let total = sw.w_global + sw.w_perpath + sw.w_sub;
     let mut n_sub = 0usize;
@@ -1876,6 +1913,8 @@ pub fn replay(doc: &Value) -> i32 {
 }
 
 struct RunReport {
+    run: u64,
+    needs_min: Option<String>,
     log_digest: u64,
     hist_digest: u64,
     nontrivial: bool,
@@ -1936,15 +1975,15 @@ fn one_run(w: &World, ctx: &Ctx, prop: Prop, run: u64, want_sample: bool) -> Run
             .collect::<BTreeSet<_>>()
             .len()
             >= 2;
+    let mut needs_min: Option<String> = None;
     let violation = v.map(|(class, detail)| {
         if class.starts_with("harness") {
             package(prop, &plan, &plan.hist, class, detail, run)
         } else {
-            let (h, d) = minimise(prop, &plan, &class);
-            let d = if d.is_empty() { detail.clone() } else { d };
-            let mut v = package(prop, &plan, &h, class.clone(), d, run);
-            v.unminimised_replay = Some(package(prop, &plan, &plan.hist, class, detail, run).replay);
-            v
+            // minimised later, in run order and only for the first few (see `check`): a change that
+            // breaks every wide history would otherwise cost thousands of minimisations
+            needs_min = Some(detail.clone());
+            package(prop, &plan, &plan.hist, class, detail, run)
         }
     });
     let sample = want_sample.then(|| {
@@ -1959,7 +1998,20 @@ fn one_run(w: &World, ctx: &Ctx, prop: Prop, run: u64, want_sample: bool) -> Run
         violation,
         sample,
         hist_len: plan.hist.len(),
+        run,
+        needs_min,
     }
+}
+
+/// Minimise a reported violation (re-derives the plan from the seed and the run index).
+fn minimise_report(w: &World, ctx: &Ctx, prop: Prop, run: u64, v: Violation, detail: String) -> Violation {
+    let plan = plan_run(w, prop, ctx.seed, run);
+    let class = v.class.clone();
+    let (h, d) = minimise(prop, &plan, &class);
+    let d = if d.is_empty() { detail } else { d };
+    let mut m = package(prop, &plan, &h, class, d, run);
+    m.unminimised_replay = Some(v.replay);
+    m
 }
 
 pub fn check(ctx: &Ctx, prop: Prop) -> i32 {
@@ -1978,6 +2030,7 @@ pub fn check(ctx: &Ctx, prop: Prop) -> i32 {
     let mut samples = vec![];
     let mut violations = vec![];
     let mut seen = BTreeSet::new();
+    let mut minimised = 0u32;
     let mut order_var: BTreeMap<String, u64> = BTreeMap::new();
     let mut len_hist: BTreeMap<&str, u64> = BTreeMap::new();
     let mut states = BTreeSet::new();
@@ -2036,7 +2089,17 @@ pub fn check(ctx: &Ctx, prop: Prop) -> i32 {
                 eprintln!("HARNESS ERROR: {}", v.summary);
                 return 2;
             }
-            if seen.insert(v.key.clone()) && violations.len() < 6 {
+            if violations.len() >= 6 {
+                continue;
+            }
+            let v = match r.needs_min {
+                Some(detail) if minimised < 12 => {
+                    minimised += 1;
+                    minimise_report(&w, ctx, prop, r.run, v, detail)
+                }
+                _ => v,
+            };
+            if seen.insert(v.key.clone()) {
                 violations.push(v);
             }
         }
